@@ -364,112 +364,147 @@ def ripHdr (h : Rip) : R Bytes := do
   let b ← ripEntriesPack h.entries
   pure (a ++ b)
 
+/-! ## code variants (proposed repairs that change modelled behaviour; which one a tree has is read off its source by
+harness/c14.py `detect_variant` and passed to the driver) -/
+
+structure XCfg where
+  ripUnsigned : Bool     -- fixes/C14_D50_rip_metric_unsigned.diff: the RIP metric is packed/unpacked with struct 'I'
+  eapBody : Bool         -- fixes/C14_D49_eap_keep_type_data.diff: an EAP request/response keeps type octet + data as payload
+  deriving DecidableEq, Repr
+
+/-- /repo as it stands -/
+def XCfg.head : XCfg := ⟨false, false⟩
+
+/-- struct 'I' -/
+def packU32m (m : Int) : R Bytes :=
+  if 0 ≤ m ∧ m < 4294967296 then pure (beEnc 4 m.toNat) else .error .struct
+
+def ripEntryPackU (e : RipEntry) : R Bytes := do
+  let a ← pk [.uint 2, .uint 2, .uint 4, .uint 4, .uint 4] [.num e.af, .num e.tag, .num e.ip, .num e.mask, .num e.nh]
+  let m ← packU32m e.metric
+  pure (a ++ m)
+
+def ripEntriesPackU : List RipEntry → R Bytes
+  | [] => pure []
+  | e :: r => do
+    let a ← ripEntryPackU e
+    let b ← ripEntriesPackU r
+    pure (a ++ b)
+
+/-- `rip.hdr` with repair D50 -/
+def ripHdrU (h : Rip) : R Bytes := do
+  let a ← pk [.uint 1, .uint 1, .uint 2] [.num h.command, .num h.version, .num 0]
+  let b ← ripEntriesPackU h.entries
+  pure (a ++ b)
+
+def ripHdrV (u : Bool) (h : Rip) : R Bytes := if u then ripHdrU h else ripHdr h
+
 /-! ## `pack()` over `XPkt` -/
 
 def ipCtxOf : Option XCtx → Option IPCtx
   | some (.v4 c) => some c
   | _ => none
 
-def xpackU : Option XCtx → XPkt → R (XPkt × Bytes)
+def xpackU (cfg : XCfg) : Option XCtx → XPkt → R (XPkt × Bytes)
   | _, .raw b => pure (.raw b, b)
   | _, .nil => pure (.nil, [])
   | _, .unparsed c r => pure (.unparsed c r, r)
   | _, .unmodelled c _ => .error (.unmodelled c)
   | _, .eth h n => do
-    let (n', rest) ← xpackU none n
+    let (n', rest) ← xpackU cfg none n
     let hd ← ethHdr h
     pure (.eth h n', hd ++ rest)
   | _, .vlan h n => do
-    let (n', rest) ← xpackU none n
+    let (n', rest) ← xpackU cfg none n
     let hd ← vlanHdr h
     pure (.vlan h n', hd ++ rest)
   | _, .arp h n => do
-    let (n', rest) ← xpackU none n
+    let (n', rest) ← xpackU cfg none n
     let hd ← arpHdr h
     pure (.arp h n', hd ++ rest)
   | _, .ipv4 h n => do
-    let (n', rest) ← xpackU (some (.v4 ⟨h.src, h.dst, h.proto⟩)) n
+    let (n', rest) ← xpackU cfg (some (.v4 ⟨h.src, h.dst, h.proto⟩)) n
     let (h', hd) ← ipv4Hdr h rest.length
     pure (.ipv4 h' n', hd ++ rest)
   | ctx, .udp h n => do
-    let (n', rest) ← xpackU none n
+    let (n', rest) ← xpackU cfg none n
     let (h', hd) ← match ctx with
       | some (.v6 s d nh) => udpHdr6 s d nh h rest
       | _ => udpHdr (ipCtxOf ctx) h rest
     pure (.udp h' n', hd ++ rest)
   | ctx, .tcp h n => do
-    let (n', rest) ← xpackU none n
+    let (n', rest) ← xpackU cfg none n
     let (h', hd) ← match ctx with
       | some (.v6 s d nh) => tcpHdr6 s d nh h rest
       | _ => tcpHdr (ipCtxOf ctx) h rest
     pure (.tcp h' n', hd ++ rest)
   | _, .icmp h n => do
-    let (n', rest) ← xpackU none n
+    let (n', rest) ← xpackU cfg none n
     let (h', hd) ← icmpHdr h rest
     pure (.icmp h' n', hd ++ rest)
   | _, .echo h n => do
-    let (n', rest) ← xpackU none n
+    let (n', rest) ← xpackU cfg none n
     let hd ← echoHdr h
     pure (.echo h n', hd ++ rest)
   | _, .unreach h n => do
-    let (n', rest) ← xpackU none n
+    let (n', rest) ← xpackU cfg none n
     let hd ← unreachHdr h
     pure (.unreach h n', hd ++ rest)
   | _, .timeEx h n => do
-    let (n', rest) ← xpackU none n
+    let (n', rest) ← xpackU cfg none n
     let hd ← timeExHdr h
     pure (.timeEx h n', hd ++ rest)
   | _, .llc h n => do
-    let (n', rest) ← xpackU none n
+    let (n', rest) ← xpackU cfg none n
     let hd ← llcHdr h
     pure (.llc h n', hd ++ rest)
   | _, .mpls h n => do
-    let (n', rest) ← xpackU none n
+    let (n', rest) ← xpackU cfg none n
     let hd ← mplsHdr h
     pure (.mpls h n', hd ++ rest)
   | _, .lldp tlvs => do
     let hd ← lldpHdr tlvs
     pure (.lldp tlvs, hd)
   | _, .eapol h n => do
-    let (n', rest) ← xpackU none n
+    let (n', rest) ← xpackU cfg none n
     let hd ← eapolHdr h
     pure (.eapol h n', hd ++ rest)
   | _, .eap h n => do
-    let (n', rest) ← xpackU none n
+    let (n', rest) ← xpackU cfg none n
     let hd ← eapHdr h
     pure (.eap h n', hd ++ rest)
   | _, .ipv6 h n => do
-    let (n', rest) ← xpackU (some (.v6 h.src h.dst h.nh)) n
+    let (n', rest) ← xpackU cfg (some (.v6 h.src h.dst h.nh)) n
     let (h', hd) ← ipv6Hdr h rest.length
     pure (.ipv6 h' n', hd ++ rest)
   | ctx, .icmp6 h n => do
-    let (n', rest) ← xpackU none n
+    let (n', rest) ← xpackU cfg none n
     match ctx with
     | some (.v6 s d _) =>
       let (h', hd) ← icmp6Hdr s d h rest
       pure (.icmp6 h' n', hd ++ rest)
     | _ => .error (.unmodelled "icmpv6:no-ipv6-prev")
   | _, .echo6 h n => do
-    let (n', rest) ← xpackU none n
+    let (n', rest) ← xpackU cfg none n
     let hd ← echoHdr h
     pure (.echo6 h n', hd ++ rest)
   | _, .gre h n => do
-    let (n', rest) ← xpackU none n
+    let (n', rest) ← xpackU cfg none n
     let (h', hd) ← greHdr h rest
     pure (.gre h' n', hd ++ rest)
   | _, .vxlan h n => do
-    let (n', rest) ← xpackU none n
+    let (n', rest) ← xpackU cfg none n
     let hd ← vxlanHdr h
     pure (.vxlan h n', hd ++ rest)
   | _, .igmp h => do
     let (h', hd) ← igmpHdr h
     pure (.igmp h', hd)
   | _, .rip h => do
-    let hd ← ripHdr h
+    let hd ← ripHdrV cfg.ripUnsigned h
     pure (.rip h, hd)
 
-def xpack (ctx : Option XCtx) (p : XPkt) : R Bytes := do
-  let (_, b) ← xpackU ctx p
+def xpack (cfg : XCfg) (ctx : Option XCtx) (p : XPkt) : R Bytes := do
+  let (_, b) ← xpackU cfg ctx p
   pure b
 
 /-! ## re-using the old parsers: probe + lift -/
@@ -814,6 +849,35 @@ def ripParse (raw : Bytes) : XPkt :=
     else .rip ⟨command, version, ripEntriesParse raw.length (raw.drop 4)⟩
   | _ => .unparsed "rip" raw
 
+/-- `eap.parse` with repair D49: a request/response keeps everything after the 4-byte header (type octet + type data) as
+its opaque payload, so `hdr + payload` reproduces the message -/
+def eapParseB (raw : Bytes) : XPkt :=
+  if raw.length < 4 then .unparsed "eap" raw else
+  match unpack eapolL (raw.take 4) with
+  | some [.num code, .num id, .num length] =>
+    .eap ⟨code, id, length⟩ (if (code = 1 ∨ code = 2) ∧ raw.length ≥ 5 then .raw (raw.drop 4) else .nil)
+  | _ => .unparsed "eap" raw
+
+def eapParseV (b : Bool) (raw : Bytes) : XPkt := if b then eapParseB raw else eapParse raw
+
+/-- the RIP entry loop with repair D50 (unsigned metric) -/
+def ripEntriesParseU : Nat → Bytes → List RipEntry
+  | 0, _ => []
+  | fuel+1, b =>
+    if b.length < 20 then [] else
+    ⟨beDec (b.take 2), beDec (sl b 2 4), beDec (sl b 4 8), beDec (sl b 8 12), beDec (sl b 12 16), (beDec (sl b 16 20) : Nat)⟩
+      :: ripEntriesParseU fuel (b.drop 20)
+
+def ripParseU (raw : Bytes) : XPkt :=
+  if raw.length < 24 then .unparsed "rip" raw else
+  match unpack [.uint 1, .uint 1, .uint 2] (raw.take 4) with
+  | some [.num command, .num version, .num z] =>
+    if z ≠ 0 then .unparsed "rip" raw
+    else .rip ⟨command, version, ripEntriesParseU raw.length (raw.drop 4)⟩
+  | _ => .unparsed "rip" raw
+
+def ripParseV (u : Bool) (raw : Bytes) : XPkt := if u then ripParseU raw else ripParse raw
+
 /-- udp.py:76-119 over `XPkt`.  The original `udpParse` stops (without the header) when the ports select RIP, VXLAN, DHCP
 or DNS; here the header fields are kept (they were read by the same `struct.unpack` before the port test, udp.py:86-87) and
 the payload goes on to the class the original model named. -/
@@ -826,33 +890,33 @@ def udpParseX (next : XNext) (raw : Bytes) : XPkt :=
   | p => lift (contOf next) p
 
 /-- the whole-chain parser over `XPkt`; structural on fuel, old classes through their original parsers -/
-def xparse : Nat → Option XCtx → XKind → Bytes → XPkt
+def xparse (cfg : XCfg) : Nat → Option XCtx → XKind → Bytes → XPkt
   | 0, _, _, raw => .unmodelled "fuel" raw
   | fuel+1, ctx, k, raw =>
     match k with
-    | .core .eth => lift (contOf (xparse fuel)) (ethParse probe raw)
-    | .core .vlan => lift (contOf (xparse fuel)) (vlanParse probe raw)
-    | .core .arp => lift (contOf (xparse fuel)) (arpParse raw)
-    | .core .ipv4 => lift (contOf (xparse fuel)) (ipv4Parse probe raw)
-    | .core .udp => udpParseX (xparse fuel) raw
-    | .core .tcp => lift (contOf (xparse fuel)) (tcpParse raw)
-    | .core .icmp => lift (contOf (xparse fuel)) (icmpParse probe raw)
-    | .core .echo => lift (contOf (xparse fuel)) (echoParse raw)
-    | .core .unreach => lift (contOf (xparse fuel)) (unreachParse probe raw)
-    | .core .timeEx => lift (contOf (xparse fuel)) (timeExParse probe raw)
-    | .llc => llcParse (xparse fuel) raw
-    | .mpls => mplsParse (xparse fuel) raw
+    | .core .eth => lift (contOf (xparse cfg fuel)) (ethParse probe raw)
+    | .core .vlan => lift (contOf (xparse cfg fuel)) (vlanParse probe raw)
+    | .core .arp => lift (contOf (xparse cfg fuel)) (arpParse raw)
+    | .core .ipv4 => lift (contOf (xparse cfg fuel)) (ipv4Parse probe raw)
+    | .core .udp => udpParseX (xparse cfg fuel) raw
+    | .core .tcp => lift (contOf (xparse cfg fuel)) (tcpParse raw)
+    | .core .icmp => lift (contOf (xparse cfg fuel)) (icmpParse probe raw)
+    | .core .echo => lift (contOf (xparse cfg fuel)) (echoParse raw)
+    | .core .unreach => lift (contOf (xparse cfg fuel)) (unreachParse probe raw)
+    | .core .timeEx => lift (contOf (xparse cfg fuel)) (timeExParse probe raw)
+    | .llc => llcParse (xparse cfg fuel) raw
+    | .mpls => mplsParse (xparse cfg fuel) raw
     | .lldp => lldpParse raw
-    | .eapol => eapolParse (xparse fuel) raw
-    | .eap => eapParse raw
-    | .ipv6 => ipv6Parse (xparse fuel) raw
-    | .icmp6 => icmp6Parse ctx (xparse fuel) raw
+    | .eapol => eapolParse (xparse cfg fuel) raw
+    | .eap => eapParseV cfg.eapBody raw
+    | .ipv6 => ipv6Parse (xparse cfg fuel) raw
+    | .icmp6 => icmp6Parse ctx (xparse cfg fuel) raw
     | .echo6 => echo6Parse raw
-    | .gre => greParse (xparse fuel) raw
-    | .vxlan => vxlanParse (xparse fuel) raw
+    | .gre => greParse (xparse cfg fuel) raw
+    | .vxlan => vxlanParse (xparse cfg fuel) raw
     | .igmp => igmpParse raw
-    | .rip => ripParse raw
+    | .rip => ripParseV cfg.ripUnsigned raw
 
-def xparseTop (k : XKind) (raw : Bytes) : XPkt := xparse (raw.length + 1) none k raw
+def xparseTop (cfg : XCfg) (k : XKind) (raw : Bytes) : XPkt := xparse cfg (raw.length + 1) none k raw
 
 end Pox.Packet
